@@ -261,5 +261,6 @@ func genRun(c *common.Corpus, seed uint64, cold bool, syncHeavy bool) (*simrt.Ru
 	p.PoolCross = []float64{0, 0.2, 0.5, 1.0}[r.Intn(4)]
 	p.ClockJumpP = []float64{0, 0.02, 0.1}[r.Intn(3)]
 	p.TimerP = []float64{0, 0.001, 0.01, 0.05}[r.Intn(4)]
+	p.GCP = []float64{0, 0, 0, 0.002, 0.01, 0.05}[r.Intn(6)]
 	return spec, shape
 }
